@@ -1331,6 +1331,19 @@ impl Machine {
         }
     }
 
+    /// A resumed dynamic call whose remaining clauses have all left its snapshot has
+    /// nothing more to offer: drop its choice point, so that the failure that follows
+    /// reaches the previous one instead of re-entering this instruction forever.
+    #[inline(always)]
+    fn discard_exhausted_dynamic_choice_point(&mut self) {
+        if let FirstOrNext::Next = self.machine_st.dynamic_mode {
+            let b = self.machine_st.b;
+
+            self.machine_st.b = self.machine_st.stack.index_or_frame(b).prelude.b;
+            self.machine_st.stack.truncate(b);
+        }
+    }
+
     pub(super) fn find_living_dynamic_else(&self, mut p: usize) -> Option<(usize, usize)> {
         loop {
             match self.code[p] {
@@ -1873,6 +1886,7 @@ impl Machine {
                                 }
                             }
                             None => {
+                                self.discard_exhausted_dynamic_choice_point();
                                 self.machine_st.fail = true;
                             }
                         }
@@ -1958,6 +1972,7 @@ impl Machine {
                                 }
                             }
                             None => {
+                                self.discard_exhausted_dynamic_choice_point();
                                 self.machine_st.fail = true;
                             }
                         }
@@ -3803,6 +3818,7 @@ impl Machine {
                                         }
                                     }
                                     None => {
+                                        self.discard_exhausted_dynamic_choice_point();
                                         self.machine_st.fail = true;
                                     }
                                 }
